@@ -256,8 +256,5 @@ end CaddyModel.C07
 
 namespace CaddyModel.C07
 /-- counter-example lines replayed on the implementation on every run (see Witness.lean) -/
-def witnessLines : List String := [
-  -- Witness.sidecar_honours_hide_full_fails: root /srv, hide *.gz, precompressed gzip, client accepts gzip,
-  -- GET /a.txt  →  the bytes of the hidden /srv/a.txt.gz
-  "C07 serve 2f77 2f737276 2a2e677a . 101 2f612e747874 2f612e747874 2f737276:d;2f7372762f612e747874:f1;2f7372762f612e7478742e677a:f2 100 677a6970"]
+def witnessLines : List String := []
 end CaddyModel.C07
